@@ -66,6 +66,10 @@ func RunJob(t *testing.T, job Job) *Partial {
 	states := map[uint64]struct{}{}
 	pairs := map[uint64]struct{}{}
 	seenSig := map[string]int{}
+	var announce *os.File
+	if job.Engine == "watchsim" {
+		announce = os.Stdout
+	}
 	var dump *os.File
 	if job.Dump != "" {
 		var err error
@@ -95,6 +99,11 @@ func RunJob(t *testing.T, job Job) *Partial {
 			p.Counters["upgrade.populations"]++
 		}
 		for _, spec := range specs {
+			if announce != nil {
+				// last line before a run: lets the launcher attribute a process death
+				b, _ := json.Marshal(map[string]any{"engine": job.Engine, "profile": spec.Profile, "seed": spec.Seed, "index": i})
+				fmt.Fprintf(announce, "ANNOUNCE %s\n", b)
+			}
 			res := run(t, spec)
 			p.Runs++
 			if res.Harness != "" {
@@ -175,6 +184,21 @@ func attributeTo(property string, v Violation, res *Result) (Violation, bool) {
 		return v, true
 	}
 	switch property {
+	case "C01":
+		// the controller half of C01: creates only at the model's ordinals, and
+		// exactly those ordinals live at the fixed point (oracles shared with C04 / C02)
+		if v.Check == "C04.create-not-desired" {
+			return Violation{Prop: "C01", Check: "C01.create-not-desired", Disc: v.Disc, Step: v.Step, Detail: v.Detail}, true
+		}
+		if v.Check == "C02.no-fixed-point" && (v.Disc == "extra" || v.Disc == "missing") {
+			return Violation{Prop: "C01", Check: "C01.converged-ordinals", Disc: v.Disc, Step: v.Step, Detail: v.Detail}, true
+		}
+	case "C11":
+		// a pause must be lossless: after it is lifted the set converges as if it
+		// had never been paused (the flags profile lifts every pause before quiesce)
+		if v.Prop == "C02" && res.Config != nil && res.Config.UnpauseAtQuiesce && res.Counters["probe.pause_lifted_at_quiesce"] > 0 {
+			return Violation{Prop: "C11", Check: "C11.pause-lossy", Disc: v.Check + ":" + v.Disc, Step: v.Step, Detail: v.Detail}, true
+		}
 	case "C15":
 		if v.Prop == "C02" && res.Config != nil && res.Config.Profile == "hostile" {
 			return Violation{Prop: "C15", Check: "C15.neighbour-starved", Disc: v.Disc, Step: v.Step, Detail: v.Detail}, true
